@@ -36,6 +36,7 @@ func (c *FnCtx) callCommon(call *ssa.CallCommon, v ssa.Value, pos token.Pos) []s
 	if call.IsInvoke() {
 		args = append(args, c.term(call.Value))
 		argTypes = append(argTypes, call.Value.Type())
+		c.safety("nil-interface-call", not(eq(c.term(call.Value), "VNil")), pos, "method "+call.Method.Name()+" called on a nil interface value")
 	}
 	// a statically known callee (function, closure, or method)
 	var callee *ssa.Function
